@@ -36,7 +36,9 @@ func main() {
 		fmt.Fprintln(os.Stderr, "unknown property", id)
 		os.Exit(2)
 	}
+	defer props.StopServers()
 	if err := fw.Run(p, *seed, *tier, *dir, *replay); err != nil {
+		props.StopServers()
 		fmt.Fprintln(os.Stderr, err)
 		os.Exit(2)
 	}
